@@ -366,7 +366,7 @@ struct MemWorld : World
         case L_MALLOC:
           o.a[1] = (int64_t)r.below(T_COUNT);
           o.a[2] = r.chance(1, 12) ? 0 : r.chance(2, 3) ? r.range(1, 8) : r.chance(1, 2) ? r.range(1, size / 2) : r.chance(1, 2) ? size : (int64_t)r.pick(std::vector<int64_t>{ 0xFFFFFFFFLL, 0x80000000LL, 0x40000001LL, 0x20000000LL, 0x10000002LL });
-          o.a[3] = r.chance(1, 10) ? 1 : r.chance(1, 12) ? 2 : r.chance(1, 14) ? 3 : 0; // F3 / F4 / F4 wild
+          o.a[3] = r.chance(1, 10) ? 1 : r.chance(1, 12) ? 2 : r.chance(1, 14) ? 3 : r.chance(1, 8) ? 4 : 0; // F3 / F4 / F4 wild / block at the top of the region
           break;
         case C_ACCEPT:
         case C_ASSIGN_T:
@@ -765,9 +765,13 @@ struct MemWorld : World
       g_fault.malloc_straddle = 1;
     if (op.a[3] == 3 && st.state == 1 && (uint64_t)count * sizeof(T) <= 2048)
       g_fault.malloc_wild = 1; // the block lies wholly in the application page behind the region
+    if (op.a[3] == 4)
+      g_fault.malloc_at_end = 1; // a legitimate answer: the block's last byte is the region's last byte
     TP<T> p = nullptr;
     Outcome o = attempt([&] { p = st.sb->template malloc_in_sandbox<T>(count); });
     g_fault.clear();
+    if (st.state == 1 && st.impl()->last_malloc_at_end && (o != OK || p == nullptr))
+      C->violate("C14", "allocation_not_served_inside_window@malloc", "the allocator of sandbox #%d answered with the block that ends on the last byte of its memory (%u elements): %s: %s", s, count, oname(o), g_last_abort_msg.c_str());
     if (st.state == 1)
       st.impl()->wild_rep_once = 0;
     uint64_t calls = st.impl()->n_mallocs - before;
